@@ -75,6 +75,8 @@ def funcs(sp, rng):
     yield 'Huber(gamma=0)', lambda: S.Huber(sp, 0), ('nograd',)
     yield 'IndicatorSimplex', lambda: S.IndicatorSimplex(sp, 1.5), ('indicator',)
     yield 'IndicatorSumConstraint', lambda: S.IndicatorSumConstraint(sp, 1.5), ('indicator',)
+    yield 'IndicatorSumConstraint(0)', lambda: S.IndicatorSumConstraint(sp, 0), ('indicator',)
+    yield 'IndicatorSumConstraint(negative)', lambda: S.IndicatorSumConstraint(sp, -2.0), ('indicator',)
     yield 'QuadraticForm(vector)', lambda: S.QuadraticForm(vector=g(), constant=0.5), ('smooth',)
     yield 'QuadraticForm(operator)', lambda: S.QuadraticForm(operator=odl.ScalingOperator(sp, 1.5), vector=g(), constant=-1.0), ('smooth',)
     # derived forms
@@ -251,6 +253,10 @@ def _pfuncs(sp, rng):
     yield 'SeparableSum(L1Norm,L2NormSquared)', lambda: S.SeparableSum(S.L1Norm(sp[0]), S.L2NormSquared(sp[1])), ()
     yield 'SeparableSum(Huber,3.0*L1Norm)', lambda: S.SeparableSum(S.Huber(sp[0], 0.3), 3.0 * S.L1Norm(sp[1])), ()
     yield 'SeparableSum(L1Norm,2)', lambda: S.SeparableSum(S.L1Norm(sp[0]), 2), ()
+    # wrappers of a separable sum keep its per-component steps (the sigma classes of C07 include one step per component for them)
+    yield 'left-scaled(SeparableSum(L1Norm,L2NormSquared))', lambda: 2 * S.SeparableSum(S.L1Norm(sp[0]), S.L2NormSquared(sp[1])), ()
+    yield 'left-scaled-float(SeparableSum(Huber,L1Norm))', lambda: 0.5 * S.SeparableSum(S.Huber(sp[0], 0.3), S.L1Norm(sp[1])), ()
+    yield 'translated(SeparableSum(L1Norm,L2NormSquared))', lambda: S.SeparableSum(S.L1Norm(sp[0]), S.L2NormSquared(sp[1])).translated(g()), ()
     yield 'L1Norm(pspace)', lambda: S.L1Norm(sp), ()
     yield 'L2Norm(pspace)', lambda: S.L2Norm(sp), ()
     yield 'L2NormSquared(pspace)', lambda: S.L2NormSquared(sp), ('smooth',)
